@@ -1,5 +1,5 @@
 (** C10/Props.v — property theorems only (removed files leave no trace). *)
-From EV Require Import Base.StoreSM C33.Model C33.Spec C08.Module C08.PropertyModel C33.Proofs C08.SimpleModels C10.TypeModel C10.Proofs.
+From EV Require Import Base.StoreSM C33.Model C33.Spec C08.Module C08.PropertyModel C33.Proofs C08.SimpleModels C08.Global C08.Diag C08.Product C08.RefModel C10.TypeModel C10.Proofs.
 Local Open Scope N_scope.
 
 (** After [remove_file_by_uri f], no container of the module index holds the file id [f] (file map keys and
@@ -15,6 +15,20 @@ Theorem remove_frees : forall (c : cfg) (ops : list (hop mfacts)) (f : N),
              = mod_obs c (state _ _ _ _ (mod_store c) (without _ f ops)) q) /\
   mod_size (state _ _ _ _ (mod_store c) (ops ++ [HRemove _ f])) = mod_size (state _ _ _ _ (mod_store c) (without _ f ops)).
 Proof. exact Proofs.remove_frees. Qed.
+
+(** The product store (LuaModuleIndex x LuaGlobalIndex x DiagnosticIndex = the modelled part of DbIndex): after
+    remove_file_by_uri(f) no container of any of the three indexes holds f, and the whole store is what it would be
+    had f never been submitted — after ANY history. *)
+Theorem product_remove_no_mention : forall c ops f, db_mentions c (db_state c (ops ++ [HRemove _ f])) f = false.
+Proof. exact Product.db_remove_no_mention. Qed.
+Theorem product_remove_frees : forall c ops f,
+  (forall q, db_obs c (db_state c (ops ++ [HRemove _ f])) q = db_obs c (db_state c (without _ f ops)) q) /\
+  db_size c (db_state c (ops ++ [HRemove _ f])) = db_size c (db_state c (without _ f ops)).
+Proof. exact Product.db_remove_frees. Qed.
+Theorem global_remove_frees : forall ops f,
+  (forall q, g_get (state _ _ _ _ glob_store (ops ++ [HRemove _ f])) q = g_get (state _ _ _ _ glob_store (without _ f ops)) q) /\
+  length (state _ _ _ _ glob_store (ops ++ [HRemove _ f])) = length (state _ _ _ _ glob_store (without _ f ops)).
+Proof. exact Product.glob_remove_frees. Qed.
 
 (** the simple indexes, for every state *)
 Theorem diagnostic_remove_no_mention : forall s f, d_mentions (d_remove f s) f = false.
@@ -35,6 +49,14 @@ Proof. exact Proofs.type_remove_clean. Qed.
 Theorem type_remove_file_maps : forall s f,
   ngetN f (t_ns (t_remove f s)) = None /\ ngetN f (t_using (t_remove f s)) = None /\ ngetN f (t_ftypes (t_remove f s)) = None.
 Proof. exact Proofs.type_remove_file_maps. Qed.
+
+(** LuaReferenceIndex (transcribed: global_references and index_reference): after remove(f) no key lists the file, and
+    no key is left with an empty file map. *)
+Theorem reference_remove_no_mention : forall s f,
+  rmap_mentions (r_glob (r_remove f s)) f = false /\ rmap_mentions (r_idx (r_remove f s)) f = false.
+Proof. exact Proofs.reference_remove_no_mention. Qed.
+Theorem reference_remove_no_empty : forall f m k files, In (k, files) (rmap_remove f m) -> files <> [].
+Proof. exact Proofs.reference_remove_no_empty. Qed.
 
 Example remove_example :
   let c := ex_cfg in
